@@ -41,6 +41,17 @@ def c20_argv(tier, seed, shard, out):
             "--out", out, "--replays", os.path.join(root, "harness", "replays"), "--known", os.path.join(root, "known_findings.txt")]
 
 
+def fuzz(target, prop, runs, shards=8):
+    import os
+    root = os.path.dirname(os.path.dirname(os.path.abspath(__file__)))
+
+    def argv(tier, seed, shard, out):
+        return ["python3", os.path.join(root, "lib", "fuzz_step.py"), "--target", target, "--prop", prop, "--runs", str(runs), "--seed", str(seed),
+                "--shard", str(shard), "--out", out, "--replays", os.path.join(root, "harness", "replays")]
+    return {"argv": argv, "sub": "fuzz-" + target, "step": "fuzz-" + target, "cases": {"quick": 0, "thorough": runs},
+            "shards": {"quick": 1, "thorough": shards}, "only_tier": "thorough"}
+
+
 CHECKS = {
     "C20": {
         "packages": ["vchecks", "vgen"],
@@ -71,7 +82,7 @@ CHECKS = {
     },
     "C06": {
         "packages": ["vchecks"],
-        "steps": [vc("c06", "derive", 60000, 3200000)],
+        "steps": [vc("c06", "derive", 60000, 3200000), fuzz("derive_total", "C06", 150000)],
         "assumptions": L1_ASSUME + ["darling_core::derive::* is what the proc-macro entry points in macro/src/lib.rs call after syn parsing; inputs are items syn accepts"],
     },
     "C10": {
@@ -101,7 +112,7 @@ CHECKS = {
     },
     "C15": {
         "packages": ["vchecks"],
-        "steps": [vc("c15", "lists", 40000, 1600000, produces=["lists", "routing"])],
+        "steps": [vc("c15", "lists", 40000, 1600000, produces=["lists", "routing"]), fuzz("meta_list", "C15", 2000000)],
         "assumptions": L1_ASSUME + ["the documented default chain (from_meta -> from_word/from_list/from_expr -> from_value -> from_bool/from_string/from_char) is read off the FromMeta trait docs"],
     },
     "C12": {
@@ -119,7 +130,8 @@ CHECKS = {
         "steps": [vc("c07", "builtins", 4000, 160000),
                   l3("c07b", "recv-main", 60000, 3200000, extra={"stepname": "recv-main"}),
                   l3("c07b", "recv-magic", 40000, 1600000, gen=GEN_MAGIC, extra={"stepname": "recv-magic"}),
-                  l3("c07b", "recv-shapes", 30000, 800000, 4, gen=GEN_SHAPES, extra={"stepname": "recv-shapes"})],
+                  l3("c07b", "recv-shapes", 30000, 800000, 4, gen=GEN_SHAPES, extra={"stepname": "recv-shapes"}),
+                  fuzz("runtime_total", "C07", 400000)],
         "assumptions": L3_ASSUME + ["a panic is observed through catch_unwind and a panic hook; documented panics (Data::empty_from on a union, Error::multiple(vec![]), IdentString::map) are not entry points and are not called"],
     },
     "C08": {
